@@ -158,11 +158,9 @@ def check(c):
     for n in ex:
         c.guard('C38.glob', n, ['ancestor.is_symlink()',
                                 '!(ancestor in symlink_dirs)'], gl)
-        st = c.idx.stmt_of(n)
-        blk = c.idx.parent[id(st)]
-        nxt = blk.body[[i for i, s in enumerate(blk.body) if s is st][0] + 1:]
+        from rules._shared import followed_by
         c.ob('C38.glob', c.key(n, gl) + ' then break (path not returned)',
-             bool(nxt) and isinstance(nxt[0], ast.Break), c.where(n, gl), '')
+             followed_by(c, c.idx.stmt_of(n), ast.Break), c.where(n, gl), '')
     c.floor('C38.glob', 'run dir glob-escaped', len(c.find(
         gl, 'os.path.join(glob.escape(str(run_dir)), pattern)')), 1)
     apps = c.find(gl, 'results.append(path)')
